@@ -183,8 +183,8 @@ int main() {
             printf("{\"ev\":\"renorm\",\"unavailable\":true}\n");
 #endif
         } else if (cmd == "steps") {
-            long n, th = -1; in >> n; in >> th;
-            verif_odeint.nsteps = n; verif_odeint.throw_at = th;
+            long n, th = -1, stall = 0; in >> n; in >> th; in >> stall;
+            verif_odeint.nsteps = n; verif_odeint.throw_at = th; verif_odeint.stall = stall;
             printf("{\"ev\":\"steps\",\"n\":%ld,\"throw_at\":%ld}\n", n, th);
 #ifndef VERIF_NO_NAUNET
         } else if (cmd == "solve") {
